@@ -103,6 +103,26 @@ def suite_merges(seed, tier):
         if thr != thr:
             thr = 0.3
         cases.append((crit, tol, thr, old, old_n, nom, 1, new, old_n + 1))
+    # dtype-top stream: 255 / 65535 members (as the old or as the merged cluster) with columns set in ALL of
+    # them; the sums arrive in uint8 / uint16 and any arithmetic in that width wraps exactly here
+    for _ in range(60 if tier == "quick" else 600):
+        nf = rng.choice([3, 5, 8, 30])
+        top = rng.choice([255, 255, 65535])
+        nom_n = rng.choice([1, 1, 2, 60])
+        old_n = rng.choice([top, top, top - nom_n, top - 1, top + 1])
+        full = rng.randint(1, max(1, nf // 2))
+        old = [old_n] * full + [rng.choice([0, old_n // 2, old_n - 1, rng.randint(0, old_n)]) for _ in range(nf - full)]
+        nom = [rng.choice([nom_n, nom_n, 0, rng.randint(0, nom_n)]) for _ in range(nf)]
+        new = [a + b for a, b in zip(old, nom)]
+        new_n = old_n + nom_n
+        crit = rng.choice(hist.CRITS)
+        tol = rng.choice([0.0, 0.05, 1.0]) if crit in hist.HAS_TOL else None
+        d, rc = stat_values(new, new_n)
+        base = rc if "radius" in crit else d
+        thr = rng.choice([0.1, 0.3, base, float(np.nextafter(base, -1.0))])
+        if thr != thr:
+            thr = 0.3
+        cases.append((crit, tol, thr, old, old_n, nom, nom_n, new, new_n))
     # moment-collision stream: old clusters with equal (n, sum k, sum k^2) but different
     # column counts, probed one after the other with the same criterion object
     import itertools
